@@ -27,7 +27,15 @@ ImgA(tok) == <<64, tok, 0, 0, 0, 0, 0, 0>>
 ImgTab == [i \in 1..30 |-> <<i>> \o ImgA(i)]
 Vals == IF Rich THEN {0, 1, 2, 3, 4, 7, 8, 15, 16, 17, 32, 64, 96, 128, 160, 192, 224, 255} ELSE {0, 1, 2, 3, 7, 8, 17, 32, 64, 128, 192, 255}
 MaxPos == IF Rich THEN 80 ELSE 48
-Lims == {<<-1, -1, -1>>, <<0, 0, 0>>, <<2, 2, 2>>, <<1, 3, 2>>} \cup (IF Rich THEN {<<16, 1, 0>>, <<3, 0, 5>>} ELSE {})
+\* limits per level <<coordinates, rings, parts>>; every ordering of strictness between the levels occurs
+Lims == {<<-1, -1, -1>>, <<0, 0, 0>>, <<2, 2, 2>>, <<1, 3, 2>>, <<3, 1, 5>>} \cup (IF Rich THEN {<<16, 1, 0>>, <<3, 0, 5>>, <<-1, 2, -1>>, <<5, 5, 1>>} ELSE {})
+\* forged type words (little-endian image): every code of the ISO table and its neighbours, and the EWKB flag bits
+TypeCodes == (0..8) \cup {1000 * k + t : k \in 1..5, t \in {0, 1, 2, 3, 7, 8}} \cup {9999, 65535}
+TypeFlags == IF Rich THEN {0, 128, 64, 192, 32, 224, 16, 1} ELSE {0, 128, 64, 224}
+TypeWords == {<<c % 256, c \div 256, 0, f>> : c \in TypeCodes, f \in TypeFlags}
+RevW(w) == <<w[4], w[3], w[2], w[1]>>
+TypeMutants(b, order) == IF Len(b) < 5 THEN {}
+                         ELSE {SubSeq(b, 1, 1) \o (IF order = "NDR" THEN w ELSE RevW(w)) \o SubSeq(b, 6, Len(b)) : w \in TypeWords}
 Mutants(b) == {SubSeq(b, 1, t) : t \in 0..(Len(b) - 1)}
               \cup {[b EXCEPT ![p] = v] : p \in 1..(IF Len(b) < MaxPos THEN Len(b) ELSE MaxPos), v \in Vals}
               \cup {b, b \o b, b \o <<1>>}
@@ -37,8 +45,8 @@ Init == \E g \in Bases, order \in {"NDR", "XDR"}, fl \in {"wkb", "wkbnan", "ewkb
            /\ sym # <<>>
            /\ flavor = IF fl = "ewkb" THEN "ewkb" ELSE "wkb"
            /\ nan \in (IF fl = "wkbnan" THEN BOOLEAN ELSE {FALSE})     \* NaN-point bytes are also read in plain mode
-           /\ bytes \in Mutants(Concrete(sym, ImgTab))
-           /\ lim \in Lims
+           /\ \/ bytes \in Mutants(Concrete(sym, ImgTab)) /\ lim \in Lims
+              \/ bytes \in TypeMutants(Concrete(sym, ImgTab), order) /\ lim \in {<<-1, -1, -1>>, <<2, 2, 2>>}
            /\ (lim = <<-1, -1, -1>> => Decode(bytes, flavor, nan, lim).mx <= 64)
 Next == FALSE /\ UNCHANGED <<bytes, flavor, nan, lim>>
 \* design invariants of the reference decoder on every modelled input
